@@ -256,9 +256,10 @@ class ModuleEnv:
                 eng.assign(st, node.func.value, VList(0, base.sort, base.arrs), None)
                 return VNone()
             if name == 'pop' and len(args) == 0:
-                d = eng.decide(st, base.length == 0)
+                fkey = ('pop', node.lineno, node.col_offset)
+                d = eng.decide(st, base.length == 0, fkey)
                 if d is None:
-                    raise ForkReq(base.length == 0)
+                    raise ForkReq(base.length == 0, fkey)
                 if d is True:
                     raise RaiseReq('IndexError')
                 root = node.func.value
@@ -375,6 +376,12 @@ class ModuleEnv:
         if name == 'tuple' and len(args) == 1 and isinstance(args[0], VTuple):
             return args[0]
         if name == 'hasattr':
+            if args and isinstance(args[0], VU):      # opaque object: may or may not have the attribute (both explored, no taint)
+                return VBool(z3.Bool(f'hasattr@L{node.lineno}c{node.col_offset}'))
+            if args and isinstance(args[0], VRec) and len(args) == 2 and isinstance(args[1], VConst):
+                known = eng.c.get('rec_attrs', {}).get(args[0].name)
+                if known is not None:
+                    return VBool(args[1].py in known or args[1].py in args[0].fields)
             return VUnknown('hasattr')
         if name == 'id' and len(args) == 1 and isinstance(args[0], VRec) and 'cid' in args[0].fields:
             return args[0].fields['cid']        # ghost object identity
@@ -507,21 +514,23 @@ class ModuleEnv:
                 if isinstance(cond, tuple):
                     sub.defs = []
                     nb = z3.And(nb, eng.truth(eng.ev(ast.parse(cond[1], mode='eval').body, sub), sub))
-                d = eng.decide(st, nb)
+                fkey = ('raise', node.lineno, node.col_offset, exc)
+                d = eng.decide(st, nb, fkey)
                 if d is None:
-                    raise ForkReq(nb)
+                    raise ForkReq(nb, fkey)
                 if d is True:
-                    raise RaiseReq(exc)
+                    self._raise_with_state(c, exc, recv, env, node, eng, st, sb, sub)
                 continue
             sub.defs = []
             t = eng.truth(eng.ev(ast.parse(cond, mode='eval').body, sub), sub)
             for dfn in sub.defs:
                 st.pc.append(dfn)
-            d = eng.decide(st, t)
+            fkey = ('raise', node.lineno, node.col_offset, exc)
+            d = eng.decide(st, t, fkey)
             if d is None:
-                raise ForkReq(t)
+                raise ForkReq(t, fkey)
             if d is True:
-                raise RaiseReq(exc)
+                self._raise_with_state(c, exc, recv, env, node, eng, st, sb, sub)
         if c.get('is_generator'):
             ys = fresh_value(('list', parse_sort(c['yield_sort'])), 'ys')
             st.pc.append(ys.length >= 0)
@@ -552,6 +561,21 @@ class ModuleEnv:
             st.pc.append(sb(e, 'assume'))
         # frame: receiver fields listed in `modifies` are havocked then constrained by ensures_self
         return res
+
+    def _raise_with_state(self, c, exc, recv, env, node, eng, st, sb, sub):
+        """the callee raises; if its contract says it may have modified the receiver before raising
+        (raise_modifies_self + callee_raise_ensures), the receiver is havocked under that exceptional postcondition"""
+        if c.get('raise_modifies_self') and recv is not None and not st.spec:
+            new_self = fresh_value(infer_sort(recv), 'self')
+            from .npmodel import wellformed_facts
+            st.pc.extend(wellformed_facts(new_self))
+            sub.old = dict(env)
+            sub.env = dict(env)
+            sub.env['self'] = new_self
+            for e in c.get('callee_raise_ensures', []):
+                st.pc.append(sb(e, 'assume'))
+            eng.assign(st, node.func.value, new_self, None)
+        raise RaiseReq(exc)
 
     # ---- spec functions (symbolic side) ------------------------------------------------------------
     def specfn(self, name, node, eng, st):
